@@ -1,9 +1,64 @@
-import LSProofs.Wf
-/-! # C18 — placeholder while the refinement development is being written (see DESIGN 4.4) -/
+import LSProofs.TextSpec
+import LSProofs.Props.C05
+/-!
+# C18 — a panicking callback leaves valid strings and no garbage behind
+
+User code is data: a `retain` predicate is its list of answers (`none` = it panics at that
+invocation), an iterator is its list of items (`none` = `next()` panics there), a `Display` impl
+its list of pieces. The theorems hold for the panic at the k-th invocation for **every k** (the
+position of `none` in the list is arbitrary), every storage state of the target and every world.
+-/
 namespace LS.C18
 open LS
 
-theorem init_wf (st : List Bytes) (hst : ∀ t ∈ st, Valid t ∧ t.length ≤ STATIC_MAX_LEN) :
-    Wf { statics := st } := wf_init st hst
+/-- `retain` whose predicate panics: the target holds the characters kept so far (std's guard
+semantics), the outcome is the callback's panic, and the world is well-formed — every block still
+has count = number of handles, so it is released exactly once when they go -/
+theorem retain_panic (rf : Refuse) (w : World) (h : Nat) (t : Bytes) (answers : List (Option Bool)) (plain : Bool)
+    (hw : Wf w) (ht : w.text h = some t) (hp : (retainScan t.length t answers []).2 = true) :
+    (((step rf w (.retain h answers plain)).2 = .panicCb ∧
+       (step rf w (.retain h answers plain)).1.text h = some (retainScan t.length t answers []).1) ∨
+     ((step rf w (.retain h answers plain)).2 = failOut plain ∧ SameAs w (step rf w (.retain h answers plain)).1 h)) ∧
+    Wf (step rf w (.retain h answers plain)).1 ∧
+    ∀ h', h' ≠ h → (step rf w (.retain h answers plain)).1.text h' = w.text h' := by
+  have hpost := step_post rf hw (.retain h answers plain) trivial
+  refine ⟨?_, hpost.1, fun h' hne => (hpost.2.2 h' hne).2⟩
+  rcases retain_refines (rf := rf) hw ht answers plain with ⟨a, b⟩ | c
+  · left; rw [hp] at a; exact ⟨a, b⟩
+  · right; exact c
+
+/-- the scan stops at the first `none` answer and keeps what it had: in particular the result is
+a prefix-filter of the processed characters, valid UTF-8, never longer than the text -/
+theorem retain_scan_valid (t : Bytes) (hv : Valid t) (answers : List (Option Bool)) :
+    Valid (retainScan t.length t answers []).1 ∧ (retainScan t.length t answers []).1.length ≤ t.length := by
+  have := retainScan_valid t.length t answers [] hv valid_nil
+  simpa using this
+
+/-- `extend` / `write!` / `+=` driven by a panicking iterator: still well-formed, others untouched -/
+theorem extend_panic (rf : Refuse) (w : World) (h hint : Nat) (items : List (Option Bytes)) (hw : Wf w)
+    (hv : ∀ s, some s ∈ items → Valid s) :
+    Wf (step rf w (.extendChars h hint items)).1 ∧ (∀ u, (step rf w (.extendChars h hint items)).2 ≠ .ub u) ∧
+    ∀ h', h' ≠ h → (step rf w (.extendChars h hint items)).1.text h' = w.text h' :=
+  let p := step_post rf hw (.extendChars h hint items) hv
+  ⟨p.1, p.2.1, fun h' hne => (p.2.2 h' hne).2⟩
+
+/-- `collect` whose iterator panics (or whose push fails): the accumulator is released — the
+destination stays empty, and since the world is well-formed no block is left without an owner
+(this is what finding F3 violated) -/
+theorem collect_panic_no_leak (rf : Refuse) (w : World) (hw : Wf w) (d hint : Nat) (items : List (Option Bytes))
+    (hv : ∀ s, some s ∈ items → Valid s) (hd : w.get d = none)
+    (hfail : (step rf w (.collectChars d hint items)).2 ≠ .ok .unit) :
+    (step rf w (.collectChars d hint items)).1.get d = none ∧ Wf (step rf w (.collectChars d hint items)).1 :=
+  C05.failed_collect_leaves_nothing rf w hw d hint items hv hd hfail
+
+/-- `to_lean_string` on a `Display` that panics or fails: no handle is produced, world well-formed -/
+theorem display_panic (rf : Refuse) (w : World) (hw : Wf w) (d : Nat) (pieces : List Piece)
+    (hv : ∀ s, Piece.text s ∈ pieces → Valid s) :
+    Wf (step rf w (.display d pieces)).1 ∧ ∀ h', h' ≠ d → (step rf w (.display d pieces)).1.text h' = w.text h' :=
+  let p := step_post rf hw (.display d pieces) hv
+  ⟨p.1, fun h' hne => (p.2.2 h' hne).2⟩
+
+-- non-vacuity: the predicate panics at its third invocation on a shared heap string
+example : retainScan 5 [0x61, 0x62, 0x63, 0x64, 0x65] [some true, some false, none] [] = ([0x61], true) := by decide
 
 end LS.C18
